@@ -129,6 +129,19 @@ func Load(o Options) (*Prog, error) {
 		return a.String() < b.String()
 	})
 	p.indexSingleCallers()
+	ehCache := map[*ssa.Function]map[string]bool{}
+	entryHeldOf = func(fn *ssa.Function) map[string]bool {
+		if fn == nil || fn.Parent() != nil || fn.Object() == nil || fn.Object().Exported() {
+			return nil
+		}
+		if m, ok := ehCache[fn]; ok {
+			return m
+		}
+		ehCache[fn] = nil // recursion guard
+		m := p.EntryHeld(fn, 0)
+		ehCache[fn] = m
+		return m
+	}
 	return p, nil
 }
 
